@@ -232,11 +232,17 @@ func gen(t *rapid.T) Case {
 	if multi {
 		n = rapid.IntRange(1, 3).Draw(t, "n")
 	}
+	faults := []string{"none", "flags", "truncate", "lyinglen", "unknowncomp", "compnoheader", "corruptcomp", "undecodable", "timeout", "oversize", "random", "ctvariant"}
+	c.Fault = rapid.SampledFrom(faults).Draw(t, "fault")
+	zeroOK := c.Fault == "none" || c.Fault == "flags" || c.Fault == "lyinglen" || c.Fault == "timeout" || c.Fault == "ctvariant"
 	encoding := rapid.SampledFrom([]string{"", "", "gzip", "deflate"}).Draw(t, "encoding")
 	var msgs [][]byte
 	var compress []bool
 	for i := 0; i < n; i++ {
 		m := prog.Msg{N: int64(i + 1), TLen: rapid.SampledFrom([]int{1, 8, 100}).Draw(t, "tlen"), TSeed: i}
+		if zeroOK && c.Codec == "proto" && rapid.IntRange(0, 4).Draw(t, "zeroMsg") == 0 {
+			m = prog.Msg{} // zero-valued: a zero-length envelope
+		}
 		c.Sent = append(c.Sent, m)
 		msgs = append(msgs, refwire.EncodePing(c.Codec, m.N, m.Text()))
 		compress = append(compress, encoding != "" && (unframed || rapid.Bool().Draw(t, "compress")))
@@ -246,8 +252,6 @@ func gen(t *rapid.T) Case {
 	}
 	req := build()
 	c.Header, c.Body = kvs(req.Header), req.Body
-	faults := []string{"none", "flags", "truncate", "lyinglen", "unknowncomp", "compnoheader", "corruptcomp", "undecodable", "timeout", "oversize", "random", "ctvariant"}
-	c.Fault = rapid.SampledFrom(faults).Draw(t, "fault")
 	// the fault is applied to message index k (all earlier ones stay intact)
 	k := 0
 	if multi {
